@@ -113,6 +113,7 @@ func c07(r *core.Report) {
 	fd := p.DeclOf("openapi3filter", "ValidateRequest")
 	ff := core.NewFuncFacts(p, info, fd)
 	r.Assumption("the verdict of each part (security callback, parameter decoding+schema, body) is not decided here; see C05, C06, C01")
+	c07EveryRequirement(r)
 
 	r.RunRule("C07.parts", "every part is validated and no part's failure is lost: ValidateRequest calls ValidateSecurityRequirements (>=1), ValidateParameter (path-level and operation-level loops) and ValidateRequestBody; each call's error is bound and tested, returned in single-error mode (provably non-nil) and appended to the MultiError otherwise; the function ends with `if len(me) > 0 { return me }`", 6, func() {
 		need := map[string]int{"ValidateSecurityRequirements": 1, "ValidateParameter": 2, "ValidateRequestBody": 1}
